@@ -241,7 +241,7 @@ def run_case(case, rec, ctx):
         reaction = None
         for attempt in range(30):
             spec = R.synth_spec(rng0, n_final=desc["n_final"], formalism=desc["formalism"], max_spin2=desc["max_spin2"],
-                                identical_scalars=desc["identical_scalars"], max_transitions=150)
+                                identical_scalars=desc["identical_scalars"], max_transitions=150, shuffle_names=desc["seed"] % 2 == 1)
             spec["l_max"] = 8
             reaction = R.build_synth(spec)
             if reaction is not None:
